@@ -75,13 +75,15 @@ func c04Universe(tier string) *TextSet {
 	})
 }
 
-var c04Nums = []V{0.0, 1.0, 1.05, 1.2, 2.0, -1.0, 1e21, 1e-7, 0.1, 0.15, 123456789012.0, 123456789012.05, 1e300, 5e-324}
+var c04Nums = []V{0.0, 1.0, 1.05, 1.2, 2.0, -1.0, 1e21, 1e-7, 0.1, 0.15, 123456789012.0, 123456789012.05, 1e300, 5e-324,
+	0.30000000000000004, 0.3, 0.2, 9007199254740992.0, 9007199254740994.0, 1.0001, 1.1, 0.9}
 
 func c04PrecisionDocs() *TextSet {
 	return memoize("c04-prec", func() *TextSet {
 		var out []V
 		for _, x := range c04Nums {
-			out = append(out, x, []interface{}{x}, map[string]interface{}{"a": x}, []interface{}{1.0, x}, map[string]interface{}{"a": []interface{}{x, "s"}})
+			out = append(out, x, []interface{}{x}, map[string]interface{}{"a": x}, []interface{}{1.0, x}, map[string]interface{}{"a": []interface{}{x, "s"}},
+				map[string]interface{}{"x": x, "y": 2.0}, []interface{}{map[string]interface{}{"x": x, "y": []interface{}{x}, "z": "s"}})
 		}
 		out = append(out, "1", nil, true, []interface{}{}, []interface{}{1.0, 1.0}, ref.Void{})
 		return NewTextSet(out)
@@ -123,6 +125,9 @@ func init() {
 			pr := c04PrecisionDocs()
 			pairs(e, "c04:PRECISION:0.1", "precision", pr, pr)
 			pairs(e, "c04:PRECISION:0.001", "precision", pr, pr)
+			pairs(e, "c04:PRECISION:0.2", "precision", pr, pr)
+			pairs(e, "c04:PRECISION:1", "precision", pr, pr)
+			pairs(e, "c04:PRECISION:0.01", "precision", pr, pr)
 			ex := c04ExactDocs()
 			pairs(e, "c04:PRECISION:0.5", "precision-exact-boundary", ex, ex)
 			for _, o := range c04Opts {
@@ -148,7 +153,7 @@ func runC04(c *engine.Case) engine.Result {
 	aV, bV := ref.MustParse(c.A), ref.MustParse(c.B)
 	var want bool
 	if o.Eps > 0 {
-		if o.Eps != 0.5 && ref.NearBoundary(aV, bV, o.Eps) {
+		if ref.NearBoundary(aV, bV, o.Eps) {
 			return engine.Result{Bucket: "no-verdict: on the eps boundary"}
 		}
 		want = ref.EqualEps(aV, bV, o.Eps)
